@@ -28,6 +28,10 @@ def run(check):
     check.run_rule('C07.R2', lambda c: rule_source_handling(c, 'C07.R2'))
     check.run_rule('C07.R3', lambda c: rule_recursion_guard(c, 'C07.R3'))
     check.run_rule('C07.R4', lambda c: rule_probe_discipline(c, 'C07.R4'))
+    from ..rules_defuse import rule_definite_assignment
+    check.run_rule('C07.R11', lambda c: rule_definite_assignment(
+        c, 'C07.R11', ['_specifiers:forged_signature', '_signatures:signature', 'sphinxext:process_signature'], 'leaves retrieval / the Sphinx hook'))
+
     def r10(c):
         # the other implicit exception visible in the code: subscripting a provenance map with a key it need not have ('+depths' of a
         # hand-built or plain signature a forger returned) -- KeyError leaves retrieval (shared with C15.R7)
@@ -38,6 +42,8 @@ def run(check):
     from ..rules_escape import rule_implicit_attribute_errors
     check.run_rule('C07.R4b', lambda c: rule_implicit_attribute_errors(c, 'C07.R4'))
     check.run_rule('C07.R5', lambda c: rule_sphinx(c, 'C07.R5'))
+    from ..rules_escape import rule_sphinx_output
+    check.run_rule('C07.R5d', lambda c: rule_sphinx_output(c, 'C07.R5'))
     from ..rules_escape import rule_sphinx_unchanged_pair
     from ..rules_visitor import rule_scope_chain_lookups
     check.run_rule('C07.R7', lambda c: rule_scope_chain_lookups(c, 'C07.R7'))
